@@ -194,7 +194,7 @@ const c06HandRule = "case = hand-assembled well-formed file DAG with 1..7 chunks
 func TestC06_P_HandmadeFiles(t *testing.T) {
 	ev := newEvid(t, c06HandRule)
 	rapid.Check(t, func(t *rapid.T) {
-		fc := genHandFileDAG(t, false)
+		fc := genHandFileDAG(t, true)
 		access := rapid.SampledFrom([]string{"reifier", "preload-selector", "entity-selector", "entity-walk-of-probed-node"}).Draw(t, "access")
 		target := &tnode{Root: fc.Root, Data: fc.Data, Entity: fc.Tree.PreOrder()}
 		log, err, p := c06Access(fc.St, target, target, "", access)
